@@ -29,7 +29,7 @@ use swc::{
     try_with_handler, Compiler, HandlerOpts, PrintArgs, SwcComments,
 };
 use swc_common::{
-    comments::Comments,
+    comments::{Comment, Comments},
     errors::{ColorConfig, Handler},
     FileName, FilePathMapping, SourceFile, Span, DUMMY_SP,
 };
@@ -108,17 +108,10 @@ pub fn print_js<'a>(
     let final_source_map = chain_source_maps(source_map, &original_source_map.source, config)
         .unwrap_or_else(|| String::from(source_map));
 
-    let final_code = if config.print_comments {
-        match &original_source_map.source_map_comment {
-            Some(comment) => {
-                debug!("Replacing original sourceMappingUrl comment: {comment}");
-                code.replace(comment.as_str(), "").into()
-            }
-            _ => code.into(),
-        }
-    } else {
-        code.into()
-    };
+    // the superseded sourceMappingURL comment is dropped from the comments before printing (see
+    // transform_js): removing it here by text replacement also altered string literals and regular
+    // expressions that merely contain the same text
+    let final_code: Cow<'a, str> = code.into();
 
     if final_source_map.is_empty() {
         debug!("No sourcemap available");
@@ -199,6 +192,12 @@ fn transform_js<R: Read>(
             // extract sourcemap before printing otherwise comments are consumed
             // and looks like it is not possible to read them after compiler.print() invocation
             let original_source_map = extract_source_map(file, compiler.comments(), file_reader);
+
+            // the rewritten file gets its own sourceMappingURL trailer: when comments are printed,
+            // the original one must not be printed again
+            if config.print_comments && original_source_map.source_map_comment.is_some() {
+                remove_source_map_comment(compiler.comments());
+            }
 
             compiler
                 .print(&program, print_args)
@@ -296,6 +295,32 @@ fn chain_source_maps(
     })?
 }
 
+// several sourceMappingURL comments may exist: the last one in the file is the one in effect.
+// The comments map has no defined iteration order, so select it by position.
+fn find_source_map_comment(comments: &SwcComments) -> Option<Comment> {
+    let mut last_comment: Option<Comment> = None;
+    for trailing in comments.trailing.iter() {
+        for comment in trailing.iter() {
+            if comment.text.trim().starts_with(SOURCE_MAP_URL)
+                && last_comment
+                    .as_ref()
+                    .map_or(true, |last| comment.span.lo >= last.span.lo)
+            {
+                last_comment = Some(comment.clone());
+            }
+        }
+    }
+    last_comment
+}
+
+fn remove_source_map_comment(comments: &SwcComments) {
+    if let Some(comment) = find_source_map_comment(comments) {
+        for mut trailing in comments.trailing.iter_mut() {
+            trailing.value_mut().retain(|c| c.span != comment.span);
+        }
+    }
+}
+
 fn extract_source_map<R: Read>(
     file_path: &str,
     comments: &SwcComments,
@@ -304,22 +329,7 @@ fn extract_source_map<R: Read>(
     let mut source_map_comment = None;
     let mut source: Option<SourceMap> = None;
 
-    // several sourceMappingURL comments may exist: the last one in the file is the one in effect.
-    // The comments map has no defined iteration order, so select it by position.
-    let mut last_comment = None;
-    for trailing in comments.trailing.iter() {
-        for comment in trailing.iter() {
-            if comment.text.trim().starts_with(SOURCE_MAP_URL)
-                && last_comment
-                    .as_ref()
-                    .map_or(true, |last: &swc_common::comments::Comment| {
-                        comment.span.lo >= last.span.lo
-                    })
-            {
-                last_comment = Some(comment.clone());
-            }
-        }
-    }
+    let last_comment = find_source_map_comment(comments);
 
     if let Some(comment) = last_comment {
         let trim_comment = comment.text.trim();
